@@ -257,6 +257,21 @@ m('c05-dir-tmp-not-wiped', 'C05', 'data.py', "        if self.tmp_path.exists():
 m('c05-continues-tmp-wiped', 'C05', 'data.py', "        if not self.tmp_path.exists():\n            self.tmp_path.mkdir()\n        self._dir = self.tmp_path", "        if self.tmp_path.exists():\n            shutil.rmtree(self.tmp_path)\n        self.tmp_path.mkdir()\n        self._dir = self.tmp_path")
 m('c05-lazy-no-tmp', 'C05', 'data.py', "        write_jsons(value, self.tmp_path)\n        shutil.move(str(self.tmp_path), str(self.path))", "        write_jsons(value, self.path)")
 
+# ---- C15 -----------------------------------------------------------------------------------------------
+m('c15-no-second-lock', 'C15', 'cache.py', "        with lock:\n            logger.debug(f'Computing cache for key {key} | file: {filepath}')\n            value = computer()\n            self.save_value(filepath, key, value)\n        return value",
+  "        logger.debug(f'Computing cache for key {key} | file: {filepath}')\n        value = computer()\n        self.save_value(filepath, key, value)\n        return value")
+m('c15-load-error-propagates', 'C15', 'cache.py', "        if filepath_exists and not force:\n            try:\n                return self.load_value(filepath, key)\n            except CacheException as error:\n                raise error\n            except Exception as error:\n                logger.warning(f'Cannot load cached value, {key=}, {filepath=}.')\n                logger.exception(error)\n\n        with lock:",
+  "        if filepath_exists and not force:\n            return self.load_value(filepath, key)\n\n        with lock:")
+m('c15-save-outside-lock', 'C15', 'cache.py', "            value = computer()\n            self.save_value(filepath, key, value)\n        return value", "            value = computer()\n        self.save_value(filepath, key, value)\n        return value")
+m('c15-get-load-error-propagates', 'C15', 'cache.py', "        if filepath_exists:\n            try:\n                return self.load_value(filepath, key)\n            except CacheException as error:\n                raise error\n            except Exception as error:\n                logger.warning(f'Cannot load cached value, {key=}, {filepath=}.')\n                logger.exception(error)\n        return NO_VALUE",
+  "        if filepath_exists:\n            return self.load_value(filepath, key)\n        return NO_VALUE")
+m('c15-recheck-missing-under-lock-returns-stale', 'C15', 'cache.py', "            value = computer()\n            self.save_value(filepath, key, value)", "            value = computer()\n            if not filepath.exists() or force:\n                self.save_value(filepath, key, value)")
+m('c15-shared-reentrant-lock', 'C15', 'cache.py', "        lock = FileLock(str(filepath) + '.lock', mode=0o664)\n        with lock:\n            filepath_exists = filepath.exists()\n        if filepath_exists and not force:",
+  "        if not hasattr(self, '_locks'):\n            self._locks = {}\n        lock = self._locks.setdefault(str(filepath), FileLock(str(filepath) + '.lock', mode=0o664, thread_local=False))\n        with lock:\n            filepath_exists = filepath.exists()\n        if filepath_exists and not force:")
+m('c15-lockfree-fast-path', 'C15', 'cache.py', "        lock = FileLock(str(filepath) + '.lock', mode=0o664)\n        with lock:\n            filepath_exists = filepath.exists()\n        if filepath_exists and not force:",
+  "        lock = FileLock(str(filepath) + '.lock', mode=0o664)\n        filepath_exists = filepath.exists()\n        if filepath_exists and not force:")
+m('c15-write-via-append', 'C15', 'cache.py', "        with filepath.open('w', encoding='utf-8') as f:\n            json.dump({'key': key, 'value': value}, f)", "        filepath.unlink(missing_ok=True)\n        with filepath.open('a', encoding='utf-8') as f:\n            json.dump({'key': key, 'value': value}, f)")
+
 
 def make_scratch():
     d = Path(tempfile.mkdtemp(prefix='tcmut-'))
